@@ -55,6 +55,7 @@ static void check_input(Ctx& cx, const GpInput& in, bool verbose = false, int on
   Paths canS = canon_closed(in.subj), canC = canon_closed(in.clip);
   WfInput wf{all, bb, mabs};
   struct Cur { int ct = 0, fr = 0, cfg = 0, pc = 0, rs = 0; } cur;
+  arm_watchdog(600);   // CPU-time limit per input: a library call that does not return is attributed to this case (crash_signal_26)
   rep.current_case = [&in, &cur]() { return case_key(in, cur.ct, cur.fr, cur.cfg, cur.pc, cur.rs); };
 
   for (int ct = 1; ct <= 4; ++ct)
@@ -115,7 +116,7 @@ static void check_input(Ctx& cx, const GpInput& in, bool verbose = false, int on
           }
         }
     }
-  rep.current_case = nullptr;
+  arm_watchdog(0); rep.current_case = nullptr;
   rep.sample("S=" + pstr(in.subj) + " C=" + pstr(in.clip) + (in.mag ? std::string(" mag=") + in.mag->name : std::string()));
 }
 
